@@ -1170,6 +1170,8 @@ func (c *Ctx) observations(fns map[*ssa.Function]bool) map[*ssa.Function][]*prec
 				}
 			}
 			for _, cob := range obsOf(st.caller) {
+				callArgs := st.call.Call.Args
+				pickedMerge := false
 				var rec func(i int, sc map[*ssa.Phi]int, extra []fact)
 				rec = func(i int, sc map[*ssa.Phi]int, extra []fact) {
 					if i < len(doms) {
@@ -1185,9 +1187,42 @@ func (c *Ctx) observations(fns map[*ssa.Function]bool) map[*ssa.Function][]*prec
 						}
 						return
 					}
+					// arguments that are phis of one merge block are selected together by the edge taken into that block
+					// (`short, long := a, b; if la > lb { short, long = b, a }`): one observation per incoming edge
+					var mergeBlk *ssa.BasicBlock
+					for _, a := range st.call.Call.Args {
+						if ph, ok := lenRoot(a).(*ssa.Phi); ok && (ph.Block() == b || ph.Block().Dominates(b)) {
+							if mergeBlk == nil {
+								mergeBlk = ph.Block()
+							} else if mergeBlk != ph.Block() {
+								mergeBlk = nil
+								break
+							}
+						}
+					}
+					if mergeBlk != nil && len(mergeBlk.Preds) >= 2 && len(mergeBlk.Preds) <= 4 && !pickedMerge {
+						for j := range mergeBlk.Preds {
+							args2 := make([]ssa.Value, len(st.call.Call.Args))
+							for ai, a := range st.call.Call.Args {
+								args2[ai] = a
+								if ph, ok := lenRoot(a).(*ssa.Phi); ok && ph.Block() == mergeBlk {
+									args2[ai] = ph.Edges[j]
+								}
+							}
+							p0 := &prover{c: c, fn: st.caller}
+							ex2 := append(append([]fact{}, extra...), p0.edgeFacts(mergeBlk.Preds[j], mergeBlk)...)
+							pickedMerge = true
+							savedArgs := callArgs
+							callArgs = args2
+							rec(i, sc, ex2)
+							callArgs = savedArgs
+							pickedMerge = false
+						}
+						return
+					}
 					p := &prover{c: c, fn: st.caller, scenario: sc, extra: extra, pre: cob}
 					o := &precond{lenLo: map[int]int64{}, lenHi: map[int]int64{}, valLo: map[int]int64{}, valHi: map[int]int64{}, le: map[[2]int]bool{}}
-					for ai, a := range st.call.Call.Args {
+					for ai, a := range callArgs {
 						switch t := a.Type().Underlying().(type) {
 						case *types.Basic:
 							if t.Info()&types.IsInteger != 0 {
@@ -1222,8 +1257,8 @@ func (c *Ctx) observations(fns map[*ssa.Function]bool) map[*ssa.Function][]*prec
 						if !f.truth {
 							op = negate(op)
 						}
-						for ai, a := range st.call.Call.Args {
-							for aj, a2 := range st.call.Call.Args {
+						for ai, a := range callArgs {
+							for aj, a2 := range callArgs {
 								if lenRoot(a) == l.base && lenRoot(a2) == r.base {
 									switch op {
 									case token.LSS, token.LEQ:
@@ -1237,8 +1272,8 @@ func (c *Ctx) observations(fns map[*ssa.Function]bool) map[*ssa.Function][]*prec
 					}
 					// the caller's own argument order carries over when the same parameters are passed on
 					if cob != nil {
-						for ai, a := range st.call.Call.Args {
-							for aj, a2 := range st.call.Call.Args {
+						for ai, a := range callArgs {
+							for aj, a2 := range callArgs {
 								pi, pj := paramIndex(st.caller, lenRoot(a)), paramIndex(st.caller, lenRoot(a2))
 								if pi >= 0 && pj >= 0 && cob.le[[2]int{pi, pj}] {
 									o.le[[2]int{ai, aj}] = true
